@@ -105,6 +105,8 @@ type tnode struct {
 	pp bool
 	// inlineMap: generated struct whose only field is an inline map
 	inlineMap bool
+	// vkey: map whose key type is the library type Key (string with Validate)
+	vkey bool
 	// topColl: wrapper around the one slice / map that is itself the Unpack target
 	topColl bool
 	// tag: name of the struct tag the vals of the fields below were read from
@@ -219,6 +221,8 @@ func fromLibTag(rt reflect.Type, tag, other string) *tnode {
 			k = kInt
 		case tString:
 			k = kString
+		case reflect.PtrTo(rt):
+			continue // Node.Next: filled by the plan's cycle, never a position of its own
 		default:
 			panic("c04: unsupported library field type " + sf.Type.String())
 		}
@@ -228,7 +232,7 @@ func fromLibTag(rt reflect.Type, tag, other string) *tnode {
 	return n
 }
 
-var libStructs = []reflect.Type{tWithDefaults, tWithBadDefaults, tRange, tPair, tHidden, tURange}
+var libStructs = []reflect.Type{tWithDefaults, tWithBadDefaults, tRange, tPair, tHidden, tURange, tUTagged, tNode}
 
 // swapTags returns a copy of the type tree in which the validators declared
 // under the other tag name are in force. The reflect types are shared.
@@ -263,6 +267,9 @@ type tgen struct {
 	budget int
 	// twoTags: fields also declare validators under altTag
 	twoTags bool
+	// nullable: the validators being drawn are for a pointer field (which can
+	// stay nil under a bound no value satisfies)
+	nullable bool
 }
 
 var namePool = []string{"a", "b", "host", "port", "size", "max_len", "name", "timeout", "level", "items", "opt", "x", "cfg", "rate", "n", "id"}
@@ -379,6 +386,13 @@ func (g *tgen) scalarVals(k kind) []vtag {
 			switch k.base() {
 			case kDur:
 				t.param = durMin[r.Intn(len(durMin))]
+				// a bound in seconds beyond what a time.Duration holds
+				switch y := r.Intn(12); {
+				case y == 0:
+					t.param = "-1e10" // every duration satisfies it
+				case y == 1 && g.nullable:
+					t.param = pick(r, "1e10", "inf") // no duration satisfies it
+				}
 			case kFloat:
 				t.param = pick(r, "1", "2.5", "5", "10")
 			case kPort:
@@ -394,6 +408,12 @@ func (g *tgen) scalarVals(k kind) []vtag {
 			switch k.base() {
 			case kDur:
 				t.param = durMax[r.Intn(len(durMax))]
+				switch y := r.Intn(12); {
+				case y == 0:
+					t.param = pick(r, "1e10", "9223372036.854775807", "inf") // every duration satisfies it
+				case y == 1 && g.nullable:
+					t.param = "-1e10" // no duration satisfies it
+				}
 			case kFloat:
 				t.param = pick(r, "20", "99.5", "50")
 			case kPort:
@@ -611,7 +631,9 @@ func (g *tgen) fieldOf(depth, x int) *tfield {
 			f.t.pp = true
 			f.t.rt = reflect.PtrTo(f.t.rt)
 		}
+		g.nullable = true
 		f.vals = g.scalarVals(k)
+		g.nullable = false
 	case x < 48: // slice of scalars
 		e := scalarNode(g.scalarKind())
 		f.t = &tnode{k: kSlice, elem: e, rt: reflect.SliceOf(e.rt)}
@@ -632,9 +654,22 @@ func (g *tgen) fieldOf(depth, x int) *tfield {
 		e := scalarNode(g.scalarKind())
 		f.t = &tnode{k: kMap, elem: e, rt: reflect.MapOf(tString, e.rt)}
 		f.vals = g.collVals(20, 20)
-		g.behindPointer(f.t, 4)
-	case x < 59: // interface{}
+		switch y := r.Intn(10); {
+		case y < 2: // a map type whose InitDefaults inserts an entry
+			f.t = initMapNode(r.Intn(2) == 0, false)
+			f.vals = nil
+		case y < 4: // keys with a Validate of their own
+			f.t.vkey = true
+			f.t.rt = reflect.MapOf(tKey, e.rt)
+		}
+		if f.t.lib == "" {
+			g.behindPointer(f.t, 4)
+		}
+	case x < 59: // interface{}, one in four behind a pointer (*interface{})
 		f.t = &tnode{k: kIface, rt: tIface}
+		if r.Intn(4) == 0 {
+			f.t.prt = reflect.PtrTo(tIface)
+		}
 		switch r.Intn(3) {
 		case 0:
 			f.t.elem = scalarNode(kInt)
@@ -696,11 +731,39 @@ func (g *tgen) fieldOf(depth, x int) *tfield {
 		f.t = &tnode{k: kMap, elem: e, rt: reflect.MapOf(tString, e.rt)}
 		f.vals = g.collVals(15, 15)
 		f.mode = g.mode(12)
+		if r.Intn(5) == 0 {
+			f.t = initMapNode(r.Intn(2) == 0, true)
+			f.vals, f.mode = nil, ""
+		}
 	}
 	if g.twoTags {
 		f.alt = g.altVals(f)
 	}
+	if f.t.k == kMap && f.t.lib != "" {
+		f.alt = nil // InitDefaults keeps these maps non-empty: no validators of their own
+	}
 	return f
+}
+
+// initMapNode: one of the library map types with InitDefaults.
+func initMapNode(bad, structElem bool) *tnode {
+	switch {
+	case structElem && bad:
+		return &tnode{k: kMap, elem: fromLib(tLimit), rt: tDefLimitsBad, lib: "DefLimitsBad"}
+	case structElem:
+		return &tnode{k: kMap, elem: fromLib(tLimit), rt: tDefLimits, lib: "DefLimits"}
+	case bad:
+		return &tnode{k: kMap, elem: scalarNode(kPort), rt: tDefPortsBad, lib: "DefPortsBad"}
+	}
+	return &tnode{k: kMap, elem: scalarNode(kPort), rt: tDefPorts, lib: "DefPorts"}
+}
+
+// keyType is the key type of a map node.
+func (t *tnode) keyType() reflect.Type {
+	if t.vkey {
+		return tKey
+	}
+	return tString
 }
 
 // behindPointer makes one collection field in `every` a pointer to the collection.
@@ -724,6 +787,8 @@ func (g *tgen) altVals(f *tfield) []vtag {
 	case t.k.scalar():
 		return g.scalarVals(t.k)
 	case t.k == kPtr && t.elem.k.scalar():
+		g.nullable = true
+		defer func() { g.nullable = false }()
 		return g.scalarVals(t.elem.k)
 	case t.k == kSlice, t.k == kMap:
 		return g.collVals(20, 20)
@@ -837,7 +902,9 @@ func twinType(top *tnode, inForce, other string, onlyInForce bool) (*tnode, twin
 		case kArray:
 			c.rt = reflect.ArrayOf(t.alen, c.elem.rt)
 		case kMap:
-			c.rt = reflect.MapOf(tString, c.elem.rt)
+			if t.lib == "" {
+				c.rt = reflect.MapOf(t.keyType(), c.elem.rt)
+			}
 		}
 		if t.prt != nil {
 			c.prt = reflect.PtrTo(c.rt)
